@@ -46,6 +46,8 @@ class Model:
         self.names = [fn.local_name(l) for l in self.flags]
         self.fc = [l for l in self.flags if fn.local_name(l) == 'fully_consumed']
         self.stale_tests = []
+        self.vals = {}
+        self.traced = set()
         self.notes = []
 
     def initial(self):
@@ -80,8 +82,19 @@ class Model:
         parts.append('stale=%s' % ('T' if st['D'] else 'F'))
         return ' '.join(parts)
 
-    def positive(self, tree):
+    def resolve(self, tree, kn):
+        """expand a tree; a local with several definitions is replaced by the definition that reached this point on the
+        current path (remembered in the path state), when there is one"""
         t = self.fn.expand(tree)
+        for _ in range(4):
+            if t[0] == 'var' and ('val', t[2]) in kn:
+                t = self.vals[kn[('val', t[2])]]
+            else:
+                break
+        return t
+
+    def positive(self, tree, kn=None):
+        t = self.resolve(tree, kn or {})
         while t[0] == 'cast':
             t = t[2]
         return t[0] == 'bin' and t[1] == 'Add' and t[3][0] == 'int' and t[3][1] > 0
@@ -91,8 +104,8 @@ class Model:
         e = show(self.fn.expand(tree))
         return re.match(r'^\(Continue\.0 \(trybranch \((std::io::Read::read|std::io::impls::read|<[^>]*as std::io::Read>::read) ', e) is not None
 
-    def is_window_len(self, tree):
-        s = show(self.fn.expand(tree))
+    def is_window_len(self, tree, kn=None):
+        s = show(self.resolve(tree, kn or {}))
         return s in ('(core::slice::len (circular::Buffer::data buf))', '(core::slice::len (circular::Buffer::data (* buf)))')
 
     def iteration(self, fs0):
@@ -107,6 +120,7 @@ class Model:
             b, fs, prog_, known = work.pop()
             if b == self.header and not first:
                 out.add((fs, prog_))
+                self.traced.add((fs0, fs, prog_, dict(known).get(('trace',), ())))
                 continue
             first = False
             if b not in self.body:
@@ -115,6 +129,13 @@ class Model:
             kn = dict(known)
             blk = fn.blocks[b]
             for s in blk['s']:
+                if s['k'] == 'assign' and not s['lhs'].get('p') and s['lhs']['l'] not in st and not is_log_term(s):
+                    l = s['lhs']['l']
+                    if len([d for d in fn.defs.get(l, []) if d['kind'] in ('assign', 'call')]) > 1 and (fn.local_ty(l) or '') in ('usize', 'u64', 'u32'):
+                        tr = self.resolve(fn.rvalue_tree(s['rv']), kn)
+                        key = show(tr)[:300]
+                        self.vals[key] = tr
+                        kn[('val', l)] = key
                 if s['k'] == 'assign' and not s['lhs'].get('p') and s['lhs']['l'] in st and not is_log_term(s):
                     l = s['lhs']['l']
                     tr = fn.rvalue_tree(s['rv'])
@@ -131,18 +152,28 @@ class Model:
             succs = []
             if k == 'call' and not is_log_term(t):
                 n = fn.callee(t) or ''
+                short = n.split('::')[-1]
+                if n.startswith('circular::Buffer::') and short in ('consume', 'grow', 'fill') or n.endswith('SymbolParser::parse_more') or n.endswith('SymbolParser::finish') \
+                        or ((fn.callee_decl(t) or '').endswith('FnMut::call_mut') and 'callback' in show(fn.operand_tree(t['args'][0]))):
+                    kn[('trace',)] = kn.get(('trace',), ()) + ('callback' if short == 'call_mut' else short,)
                 if n == CONSUME:
                     amt = fn.operand_tree(t['args'][1])
-                    if self.positive(amt):
+                    if self.positive(amt, kn):
                         prog_ = True
                         st['E'] = None
-                    elif self.is_window_len(amt):
+                    elif self.is_window_len(amt, kn):
                         st['E'] = True
                     elif st['E'] is not True:
                         st['E'] = None
                 dest = t.get('dest', {})
                 if dest and not dest.get('p') and dest.get('l') in st:
                     st[dest['l']] = None
+                elif dest and not dest.get('p') and (fn.local_ty(dest['l']) or '') in ('usize', 'u64', 'u32') \
+                        and len([d for d in fn.defs.get(dest['l'], []) if d['kind'] in ('assign', 'call')]) > 1:
+                    tr = self.resolve(fn.call_tree(t), kn)
+                    key = show(tr)[:300]
+                    self.vals[key] = tr
+                    kn[('val', dest['l'])] = key
                 if t.get('t') is not None:
                     succs.append((t['t'], st, prog_, kn))
             elif k == 'switch' and not is_log_term(t):
@@ -192,10 +223,30 @@ class Model:
                             st2['E'] = False
                             st2['D'] = True
                     else:
-                        if cs in kn2 and kn2[cs] != lab:
-                            continue
-                        if len(cs) < 400:
-                            kn2[cs] = lab
+                        # decisions about the same Option / Result made in different spellings must agree on one path:
+                        # `match x { Some(..) .. }` (a switch on discr x) and `x.is_some()` (a bool)
+                        key, val = cs, lab
+                        c0 = cond
+                        if c0[0] == 'call' and len(c0) == 3 and re.search(r'(Option::is_some|Option::is_none|Result::is_ok|Result::is_err)$', c0[1]):
+                            tv = truth_of_label(lab)
+                            pos = c0[1].endswith('is_some') or c0[1].endswith('is_err')
+                            key = '(discr %s)' % show(c0[2])
+                            val = None if tv is None else (1 if (tv == pos) else 0)
+                        elif c0[0] == 'discr':
+                            vals_ = [v for v, _ in t['ts']]
+                            if lab == 'else':
+                                dom = None
+                                xo = t['x'].get('m') or t['x'].get('c')
+                                sd = fn.single_def(xo['l']) if xo and not xo.get('p') else None
+                                if sd is not None and sd['kind'] == 'assign' and sd['rv']['k'] == 'discr':
+                                    dom = sd['rv'].get('dv')
+                                rest = [v for v in (dom or []) if v not in vals_]
+                                val = rest[0] if len(rest) == 1 else ('else', tuple(vals_))
+                        if val is not None:
+                            if key in kn2 and kn2[key] != val:
+                                continue
+                            if len(key) < 400:
+                                kn2[key] = val
                     succs.append((tgt, st2, p2, kn2))
             else:
                 for s_ in fn.succ[b]:
